@@ -379,10 +379,11 @@ class Expander:
             # `if c: continue` / `if c: return ...` -- the rest of this block runs only if not c (the same as putting the rest
             # into an else-branch); an early `raise` is an error exit and does not condition the normal path
             if isinstance(st, ast.If):
-                c1 = bool(st.body) and isinstance(st.body[-1], (ast.Continue, ast.Return))
-                c2 = bool(st.orelse) and isinstance(st.orelse[-1], (ast.Continue, ast.Return))
+                test_, body_, orelse_ = _positive_if(st)
+                c1 = bool(body_) and isinstance(body_[-1], (ast.Continue, ast.Return))
+                c2 = bool(orelse_) and isinstance(orelse_[-1], (ast.Continue, ast.Return))
                 if c1 != c2:
-                    g = self._tr(st.test)
+                    g = self._tr(test_)
                     self.guard_stack.append(T("not", None, [g]) if c1 else g)
                     pushed += 1
         for _ in range(pushed):
@@ -548,14 +549,16 @@ class Expander:
             return env
         if isinstance(st, ast.If):
             self._record_names(st.test, env)
-            g = self._tr(st.test)
+            # `if not c: A else: B` is `if c: B else: A`: conditions are kept positive, so an inverted if/else is the same program
+            test_, body_, orelse_ = _positive_if(st)
+            g = self._tr(test_)
             self.guard_stack.append(g)
-            e1 = self._block(st.body, dict(env))
+            e1 = self._block(body_, dict(env))
             self.guard_stack.pop()
             self.guard_stack.append(T("not", None, [g]))
-            e2 = self._block(st.orelse, dict(env))
+            e2 = self._block(orelse_, dict(env))
             self.guard_stack.pop()
-            t1, t2 = _terminates(st.body), _terminates(st.orelse)
+            t1, t2 = _terminates(body_), _terminates(orelse_)
             if t1 and not t2:
                 return e2
             if t2 and not t1:
@@ -705,7 +708,10 @@ class Expander:
             args = [self._tr(e.left)] + [self._tr(c) for c in e.comparators]
             return T("cmp", " ".join(CMPOPS.get(type(o), "?") for o in e.ops), args, node=e)
         if isinstance(e, ast.IfExp):
-            return T("ifexp", None, [self._tr(e.test), self._tr(e.body), self._tr(e.orelse)], node=e)
+            test, a_, b_ = e.test, e.body, e.orelse
+            while isinstance(test, ast.UnaryOp) and isinstance(test.op, ast.Not):   # `a if not c else b` is `b if c else a`
+                test, a_, b_ = test.operand, b_, a_
+            return T("ifexp", None, [self._tr(test), self._tr(a_), self._tr(b_)], node=e)
         if isinstance(e, (ast.Tuple, ast.List)):
             return T("tuple" if isinstance(e, ast.Tuple) else "list", None, [self._tr(x) for x in e.elts], node=e)
         if isinstance(e, ast.Dict):
@@ -738,6 +744,14 @@ def _as_load(t):
     if isinstance(t, ast.Subscript):
         return ast.Subscript(value=t.value, slice=t.slice, ctx=ast.Load())
     return t
+
+
+def _positive_if(st):
+    """(test, body, orelse) with explicit negations of the test removed and the branches swapped accordingly"""
+    test, body, orelse = st.test, st.body, st.orelse
+    while isinstance(test, ast.UnaryOp) and isinstance(test.op, ast.Not):
+        test, body, orelse = test.operand, orelse, body
+    return test, body, orelse
 
 
 def _terminates(stmts) -> bool:
